@@ -206,6 +206,7 @@ func (eval Evaluator) Add(op0 *rlwe.Ciphertext, op1 rlwe.Operand, opOut *rlwe.Ci
 		}
 
 		opOut.Resize(op0.Degree(), level)
+		opOut.Scale = op0.Scale
 
 		TBig := eval.parameters.RingT().ModulusAtLevel[0]
 
@@ -498,6 +499,7 @@ func (eval Evaluator) Mul(op0 *rlwe.Ciphertext, op1 rlwe.Operand, opOut *rlwe.Ci
 		}
 
 		opOut.Resize(op0.Degree(), level)
+		opOut.Scale = op0.Scale
 
 		ringQ := eval.parameters.RingQ().AtLevel(level)
 
